@@ -57,7 +57,8 @@ def required(tier):
     cl += ['climb:outside-mass-refused', 'cruise:outside-mass-refused',
            'descent:mass-ignored', 'mass:min', 'mass:max', 'ptf:row-reproduced',
            'load-refused:missing-row', 'load-refused:fourth-mass', 'load-refused:duplicate-row',
-           'table:sample', 'table:generated', 'loaded:from-toml-file']
+           'table:sample', 'table:generated', 'loaded:from-toml-file',
+           'two-tables:same-grid-other-values']
     return {'classes': cl, 'evaluations': 3000}
 
 
@@ -287,6 +288,28 @@ def run_shard(spec, rec):
                     raise Mismatch('a valid performance table was refused at load',
                                    {'error': f'{type(e).__name__}: {str(e)[:200]}', **case})
                 check_table(model, t, rng, 'generated', case)
+                # a second table on the SAME (FL, mass) grid with other values, evaluated in the
+                # same process: results must come from the table that is being evaluated
+                t2 = perfgen.regen_values(rng, t)
+                model2 = PerformanceModel.from_data(perfgen.model_dict(perfgen.table_rows(t2, rng)))
+                for ph in ('climb', 'cruise', 'descent'):
+                    for _ in range(4):
+                        f = rng.choice(t2[ph]['fls'])
+                        m = rng.choice(t2[ph]['masses'])
+                        rec.ev()
+                        got = ev(model2, ph, f / METERS_TO_FL, m)
+                        want = (t2[ph]['tas'][f], t2[ph]['rocd'][(f, m)], t2[ph]['ff'][(f, m)])
+                        if not all(rel_eq(g, ww) for g, ww in zip(got, want)):
+                            raise Mismatch('node value differs from the table (second table on '
+                                           'the same grid evaluated in the same process)',
+                                           {'phase': ph, 'fl': f, 'mass': m, 'got': got,
+                                            'expected': want, **case})
+                        got1 = ev(model, ph, f / METERS_TO_FL, m)
+                        want1 = (t[ph]['tas'][f], t[ph]['rocd'][(f, m)], t[ph]['ff'][(f, m)])
+                        if not all(rel_eq(g, ww) for g, ww in zip(got1, want1)):
+                            raise Mismatch('evaluating another table changed the results of the '
+                                           'first one', {'phase': ph, 'fl': f, 'mass': m, **case})
+                rec.cls('two-tables:same-grid-other-values')
                 if k == 0:
                     rec.sample({'masses': t['masses'], 'climb_fls': t['climb']['fls'],
                                 'cruise_fls': t['cruise']['fls'],
